@@ -252,11 +252,26 @@ inline bool run_history(Choice &c, Ctx &cx, bool light, unsigned char heapfill, 
             cx.fail("info", tag + fmt(": valid call returned info=%lld", info)); e.lu_live = false; e.teardown(); vf_purge(); return false;
         }
         if (kind != ST_RESOLVE) { H.have_order = true; H.factors_ok = (info == 0 || info == n + 1); if (H.factors_ok) { H.A_of_factors = dense_of(to_comp<T>(H.G, false, nullptr)); H.u_of_factors = o.u; } }
+        // The first column in pivot order receives no update, so its candidates are its stored entries: whatever the threshold and
+        // whatever pivots are remembered, its pivot row must hold a nonzero entry of that column if the column has one (exact).
+        if (kind != ST_RESOLVE && kind != ST_QUERY && info >= 0 && info <= n + 1 && info != 1 && is_perm(e.perm_c.data(), n)) {
+            int c0 = -1, r0 = -1; for (int j = 0; j < n; ++j) if (e.perm_c[j] == 0) c0 = j; for (int i = 0; i < n; ++i) if (e.perm_r[i] == 0) r0 = i;
+            if (c0 >= 0 && r0 >= 0) {
+                bool any = false, pivnz = false;
+                for (int_t p = e.S.ptr[c0]; p < e.S.ptr[c0 + 1]; ++p) { bool nz = !(e.S.val[p] == T(0)); any = any || nz; if ((int)e.S.idx[p] == r0 && nz) pivnz = true; }
+                if (any && !pivnz) { cx.fail("first-pivot-zero", tag + fmt(": the pivot row %d of the first column in pivot order (column %d) holds no nonzero entry of that column although the column has one (info=%lld)", r0, c0, info)); e.lu_live = (info <= n + 1) && e.lu_live; e.teardown(); vf_purge(); return false; }
+            }
+        }
         if (info >= 1 && info <= n) {
             // "the same guarantees as a fresh factorization of that call's matrix": a re-use step must not report an exactly
             // zero pivot for a matrix that a fresh factorization with the same options factors comfortably
-            if (!light && (kind == ST_SAMEROW || kind == ST_SAMEPAT) && !maybe_exactly_singular(H.G)) {
-                Expert<T> f; f.init(n, 0, n, n); f.S = to_comp<T>(H.G, base.nr, nullptr); f.B.assign(1, sentinel_value<T>());
+            // (Sound only where a zero pivot column cannot be an accident of the pivot order: the comparison run gets the very
+            // same arrays - the order of the entries inside a column decides ties - and the oracle is applied for thresholds
+            // u >= 0.1 only.  With u near 0 two legitimate pivot orders differ in stability and either may cancel to an exactly
+            // zero column; a first version without these restrictions raised a false alarm in the thorough tier: SamePattern,
+            // same values, u = 0, integer matrix with ties, entries stored in another order for the comparison run.)
+            if (!light && (kind == ST_SAMEROW || kind == ST_SAMEPAT) && base.u >= 0.1 && !maybe_exactly_singular(H.G)) {
+                Expert<T> f; f.init(n, 0, n, n); f.S = e.S; f.S.val = H.val_in; f.B.assign(1, sentinel_value<T>());
                 apply_opts(o, f.so); f.so.Fact = DOFACT; f.so.ConditionNumber = YES; f.so.PivotGrowth = NO; f.so.IterRefine = NOREFINE; f.so.Equil = e.so.Equil;
                 if (base.colperm == MY_PERMC) f.perm_c = base.my_perm_c;
                 f.bind();
